@@ -133,7 +133,7 @@ pub fn aname(i: usize) -> String {
     const WS: [&str; 10] =
         ["sink", "sink ", " sink", "\u{a0}sink", "sink\t", "\u{3000}sink", "sink\u{2003}", " sink ", "sink\u{a0}", "\tsink"];
     const LOOK: [&str; 10] =
-        ["log", "Log", "LOG", "l\u{43e}g", "lo\u{261}", "log\u{200b}", "lo\u{301}g", "l0g", "lоg", "log."];
+        ["log", "Log", "LOG", "l\u{43e}g", "lo\u{261}", "log\u{200b}", "lo\u{301}g", "l0g", "1og", "log."];
     match NAME_STYLE.load(std::sync::atomic::Ordering::SeqCst) % 3 {
         1 if i < WS.len() => WS[i].to_string(),
         2 if i < LOOK.len() => LOOK[i].to_string(),
